@@ -375,3 +375,61 @@ Theorem C11_bfi_tx_premises_satisfiable :
   BfiDefs.enc_tx true tp = BfiDefs.enc_tx false tp.
 Proof. exact BfiWire.tx_nontrivial. Qed.
 Print Assumptions C11_bfi_tx_premises_satisfiable.
+
+(** Address normalisation made concrete (Serde/AddrNorm.v, AddrNormProofs.v, AddrNormConcrete.v): [addr_norm_c18 sha256] is what
+    DeserializeFromVbkEncoding(Address) computes, composed from the C18 text model (EncodeBase58|59 by wire type -> Address::fromString
+    incl. length/'V'/alphabet/multisig m,n/checksum, type taken from the TEXT -> DecodeBase58|59 by that type). It satisfies the premise
+    [addr_norm_sound] for every wire type, every byte string and every sha256 (no premise about sha256), so the address-carrying theorems
+    above hold for it outright; only [sha256] stays abstract. *)
+From VB Require Serde.AddrNorm Serde.AddrNormProofs Serde.AddrNormConcrete Text.AddressProofs.
+Theorem C11_addr_norm_sound_discharged : forall sha256, addr_norm_sound (AddrNorm.addr_norm_c18 sha256).
+Proof. exact AddrNormProofs.addr_norm_c18_sound. Qed.
+Print Assumptions C11_addr_norm_sound_discharged.
+Theorem C11_Address_concrete : forall sha256, c11_ok (c_address (AddrNorm.addr_norm_c18 sha256)).
+Proof. exact AddrNormConcrete.address_c11_concrete. Qed.
+Print Assumptions C11_Address_concrete.
+Theorem C11_Output_concrete : forall sha256, c11_ok (c_output (AddrNorm.addr_norm_c18 sha256)).
+Proof. exact AddrNormConcrete.output_c11_concrete. Qed.
+Print Assumptions C11_Output_concrete.
+Theorem C11_VbkTx_concrete : forall sha256, c11_ok (c_vbktx (AddrNorm.addr_norm_c18 sha256)).
+Proof. exact AddrNormConcrete.vbktx_c11_concrete. Qed.
+Print Assumptions C11_VbkTx_concrete.
+Theorem C11_VbkPopTx_concrete : forall sha256, c11_ok (c_vbkpoptx (AddrNorm.addr_norm_c18 sha256)).
+Proof. exact AddrNormConcrete.vbkpoptx_c11_concrete. Qed.
+Print Assumptions C11_VbkPopTx_concrete.
+Theorem C11_ATV_concrete : forall sha256, c11_ok (c_atv (AddrNorm.addr_norm_c18 sha256)).
+Proof. exact AddrNormConcrete.atv_c11_concrete. Qed.
+Print Assumptions C11_ATV_concrete.
+Theorem C11_VTB_concrete : forall sha256, c11_ok (c_vtb (AddrNorm.addr_norm_c18 sha256)).
+Proof. exact AddrNormConcrete.vtb_c11_concrete. Qed.
+Print Assumptions C11_VTB_concrete.
+Theorem C11_PopData_concrete : forall sha256, c11_ok (c_popdata (AddrNorm.addr_norm_c18 sha256)).
+Proof. exact AddrNormConcrete.popdata_c11_concrete. Qed.
+Print Assumptions C11_PopData_concrete.
+Theorem C11_full_Address_concrete : forall sha256, c11_full (c_address (AddrNorm.addr_norm_c18 sha256)).
+Proof. exact AddrNormConcrete.address_full_concrete. Qed.
+Print Assumptions C11_full_Address_concrete.
+Theorem C11_full_Output_concrete : forall sha256, c11_full (c_output (AddrNorm.addr_norm_c18 sha256)).
+Proof. exact AddrNormConcrete.output_full_concrete. Qed.
+Print Assumptions C11_full_Output_concrete.
+Theorem C11_counting_figure_is_encoded_size_concrete : forall sha256 p c r,
+  CountProofs.agrees c r ->
+  wfd (c_popdata (AddrNorm.addr_norm_c18 sha256)) p = true -> StreamDefs.fits (c_popdata (AddrNorm.addr_norm_c18 sha256)) p = true ->
+  List.map Z.of_N (CountDefs.k_vbk r) = List.map (esize c_vbkblock) (pop_context p) ->
+  List.map Z.of_N (CountDefs.k_vtb r) = List.map (esize (c_vtb (AddrNorm.addr_norm_c18 sha256))) (pop_vtbs p) ->
+  List.map Z.of_N (CountDefs.k_atv r) = List.map (esize (c_atv (AddrNorm.addr_norm_c18 sha256))) (pop_atvs p) ->
+  (CountDefs.len (CountDefs.k_vbk r) < 2 ^ 63)%N -> (CountDefs.len (CountDefs.k_vtb r) < 2 ^ 63)%N -> (CountDefs.len (CountDefs.k_atv r) < 2 ^ 63)%N ->
+  Z.of_N (CountDefs.popsize c) = StreamDefs.len (enc (c_popdata (AddrNorm.addr_norm_c18 sha256)) p).
+Proof. exact AddrNormConcrete.counting_figure_is_encoded_size_concrete. Qed.
+Print Assumptions C11_counting_figure_is_encoded_size_concrete.
+(** not vacuous, and it does normalise (stub sha256 = AddressProofs.sha_demo): wire (1, base58 bytes) of a valid STANDARD text is accepted
+    unchanged; wire (3, base59 bytes of the same text) is accepted as that STANDARD address, i.e. it is a second, non-canonical wire form
+    (wfd = false for it); wire (1, those base59 bytes) is rejected *)
+Theorem C11_addr_norm_concrete_nontrivial :
+  AddrNorm.addr_norm_c18 AddressProofs.sha_demo 1 AddrNormConcrete.demo_b58 = Some (1, AddrNormConcrete.demo_b58) /\
+  AddrNorm.addr_norm_c18 AddressProofs.sha_demo 3 AddrNormConcrete.demo_b59 = Some (1, AddrNormConcrete.demo_b58) /\
+  AddrNorm.addr_norm_c18 AddressProofs.sha_demo 1 AddrNormConcrete.demo_b59 = None /\
+  wfd (c_address (AddrNorm.addr_norm_c18 AddressProofs.sha_demo)) (mkAddress 1 AddrNormConcrete.demo_b58) = true /\
+  wfd (c_address (AddrNorm.addr_norm_c18 AddressProofs.sha_demo)) (mkAddress 3 AddrNormConcrete.demo_b59) = false.
+Proof. exact AddrNormConcrete.addr_norm_c18_nontrivial. Qed.
+Print Assumptions C11_addr_norm_concrete_nontrivial.
